@@ -1,4 +1,5 @@
 import Sudachi.Proofs.Split
+import Sudachi.Proofs.SplitJoin
 /-!
 # C09 — Modes A and B refine mode C with exactly the dictionary's split units
 
@@ -701,6 +702,162 @@ example :
   intro k hk
   have : k = 0 ∨ k = 1 ∨ k = 2 ∨ k = 3 := by simp [cs] at hk; omega
   rcases this with rfl | rfl | rfl | rfl <;> decide
+
+
+/-! ## tokens made by the path-rewrite plugins, units of units, the other entry points (depth round 4) -/
+
+/-- **A token joined by a path-rewrite plugin declares no units** (`concat_nodes` of JoinNumericPlugin,
+`concat_oov_nodes` of JoinKatakanaOovPlugin: `..Default::default()` for the split lists), whatever its
+parts declare — in every mode; its key length is the sum of the parts' key lengths (a `u16`). -/
+theorem joined_declares_no_units (k : JoinKind) (parts : List Node) (j : Node)
+    (h : joinNodes k parts = .ok j) (m : Mode) :
+    numSplits j m = 0 ∧ j.info.a = [] ∧ j.info.b = [] ∧
+    j.info.hwl = (parts.map (·.info.hwl)).sum ∧ j.info.hwl < 65536 := by
+  obtain ⟨first, rest, last, hw, hp, _, hs, rfl⟩ := joinNodes_ok k parts j h
+  have hsum : hw = (parts.map (·.info.hwl)).sum ∧ hw < 65536 := by
+    rcases sumHwl_eq parts 0 hw hs with ⟨h1, h2⟩ | ⟨h1, _⟩
+    · exact ⟨by omega, h2⟩
+    · rw [hp] at h1; cases h1
+  refine ⟨?_, rfl, rfl, hsum.1, hsum.2⟩
+  cases m <;> simp [numSplits, splitsOf]
+
+/-- **First and third sentence for joined tokens (the statement seeded change C09d breaks), full strength:**
+for every lexicon set, subset, table, iterator variant, mode and every run of parts — also when the HEAD of
+the run is a compound numeral with declared units — the joined token stands unchanged in the A/B path
+wherever it is in the path, `split_into` reports that nothing was split and appends nothing, and the
+deprecated `Morpheme::split` returns the token itself. -/
+theorem joined_token_unchanged (cx : Ctx) (m : Mode) (k : JoinKind) (parts : List Node) (j : Node)
+    (h : joinNodes k parts = .ok j) :
+    expand cx m j = .ok [j] ∧ splitInto cx m j = .ok (false, []) ∧ splitDeprecated cx m j = .ok [j] ∧
+    (∀ p1 p2 out, splitPath cx m (p1 ++ j :: p2) = .ok out →
+      ∃ o1 o2, out = o1 ++ j :: o2 ∧ splitPath cx m p1 = .ok o1 ∧ splitPath cx m p2 = .ok o2) := by
+  have h0 : numSplits j m = 0 := (joined_declares_no_units k parts j h m).1
+  have he : expand cx m j = .ok [j] := by simp [expand, h0]
+  have hi : splitInto cx m j = .ok (false, []) := by simp [splitInto, h0]
+  refine ⟨he, hi, by simp [splitDeprecated, hi], ?_⟩
+  intro p1 p2 out hout
+  by_cases hm : m = Mode.C
+  · simp only [splitPath, hm, if_true, Outcome.ok.injEq] at hout ⊢
+    exact ⟨p1, p2, hout.symm, rfl, rfl⟩
+  · simp only [splitPath, hm, if_false] at hout ⊢
+    obtain ⟨o1, us, o2, ho, h1, hus, h3⟩ := splitPathGo_decompose cx m p1 j p2 out hout
+    rw [he] at hus
+    cases hus
+    exact ⟨o1, o2, by simpa using ho, h1, h3⟩
+
+/-- **The joined token covers exactly the run it replaces**: first part's begin, last part's end, in
+characters and in bytes — a linked chain of parts from `(c, b)` to `(c', b')` becomes the one-node chain
+with the same ends (texts shorter than 65 536 characters: the `as u16` casts are the identity), so the
+hypotheses of `chain_preserved` / `partition_chain` survive the path-rewrite plugins. -/
+theorem joined_range (k : JoinKind) (parts : List Node) (j : Node) (h : joinNodes k parts = .ok j)
+    (c b c' b' : Nat) (hl : Linked parts c b c' b') (hc : c < 65536) (hc' : c' < 65536) :
+    Linked [j] c b c' b' := by
+  obtain ⟨first, rest, last, hw, hp, hlast, _, rfl⟩ := joinNodes_ok k parts j h
+  obtain ⟨e1, e2⟩ := Linked_last parts c b c' b' last hl hlast
+  subst hp
+  obtain ⟨f1, f2, _⟩ := hl
+  refine ⟨?_, f2, ?_, e2⟩
+  · show asU16 first.cb = c
+    rw [f1]; exact Nat.mod_eq_of_lt hc
+  · show asU16 last.ce = c'
+    rw [e1]; exact Nat.mod_eq_of_lt hc'
+
+/-- **A joined token never carries the id of a dictionary word**: `WordId::INVALID` (dictionary 15) for
+`concat_nodes`; for `concat_oov_nodes` the largest id of the run if that is an OOV id, else word number
+`MAX_WORD` of its dictionary.  This is how the harness (and `Morpheme::is_oov`/`dictionary_id` users)
+tell synthesised tokens from words — formerly a trusted statement. -/
+theorem joined_wid_synthetic (k : JoinKind) (parts : List Node) (j : Node) (h : joinNodes k parts = .ok j) :
+    isOov j.wid = true ∨ wordOf j.wid = WORD_MASK := by
+  obtain ⟨first, rest, last, hw, _, _, _, rfl⟩ := joinNodes_ok k parts j h
+  cases k
+  · left
+    show isOov INVALID_ID = true
+    decide
+  · show isOov (kataWid parts) = true ∨ wordOf (kataWid parts) = WORD_MASK
+    unfold kataWid
+    by_cases ho : isOov (parts.foldl (fun acc n => max acc n.wid) 0) = true
+    · left; simp [ho]
+    · right; simp only [ho]; exact wordOf_mkId_mask _
+
+/-- **A path that no plugin touched resolves as before**: the grouped path of this round's case lines
+degenerates to `resolve_best_path` alone, so every theorem about `resolvePath` applies to it. -/
+theorem groups_plain_eq_resolvePath (lex : Lex) (s : Subset) (c2b : List Nat) (raws : List RawNode) :
+    resolveGroups lex s c2b (plainGroups raws) = resolvePath lex s c2b raws := by
+  induction raws with
+  | nil => rfl
+  | cons r rest ih =>
+    simp only [plainGroups, List.map_cons] at ih ⊢
+    simp only [resolveGroups, resolveG2, resolveG1s, resolveG1, resolvePath, ih]
+    cases resolveNode lex s c2b r <;> simp [closeGroup]
+
+/-- **Units of units are NOT split further by one call; a second call splits them** (statement).  For a
+node declaring two or more units the A/B path holds exactly one token per DECLARED unit (no more, even
+when a unit declares units of its own in that mode), and splitting such a unit `u` on demand afterwards
+is `NodeSplitIterator` run over `u`'s own list inside `u`'s range. -/
+theorem one_level_only (cx : Ctx) (m : Mode) (n : Node) (us : List Node)
+    (h2 : 2 ≤ numSplits n m) (h : expand cx m n = .ok us) :
+    us.map (·.wid) = splitsOf n m ∧ us.length = numSplits n m ∧
+    (∀ u ∈ us, ∀ us2, 1 ≤ numSplits u m →
+      (splitInto cx m u = .ok (true, us2) ↔ splitGo cx (splitsOf u m) u.cb u.bb u.ce u.be = .ok us2)) := by
+  have hgt : ¬ numSplits n m ≤ 1 := by omega
+  simp only [expand, hgt, if_false] at h
+  have hw := units_ids cx m n us h
+  refine ⟨hw, ?_, ?_⟩
+  · have := congrArg List.length hw
+    simpa [numSplits] using this
+  · intro u _ us2 h1
+    have hne : numSplits u m ≠ 0 := by omega
+    have hm : m ≠ Mode.C := by
+      intro hc; subst hc; simp [numSplits, splitsOf] at h1
+    cases m
+    · simp only [splitInto, hne, if_false, split]
+      cases splitGo cx (splitsOf u Mode.A) u.cb u.bb u.ce u.be <;> simp
+    · simp only [splitInto, hne, if_false, split]
+      cases splitGo cx (splitsOf u Mode.B) u.cb u.bb u.ce u.be <;> simp
+    · exact absurd rfl hm
+
+/-- kernel-checked witness of `one_level_only` being sharp — `split_path` is NOT idempotent: `二十万`
+(word 5, B units `二十`/`万` = words 3/2; `二十` itself declares the B units `二`/`十` = words 0/1).  Mode B
+gives `[二十, 万]`; the token `二十` still declares two B units and stays whole; a second `split_into` on it
+gives `[二, 十]`. -/
+theorem units_of_units_witness :
+    let lex : Lex := [[⟨3, [], []⟩, ⟨3, [], []⟩, ⟨3, [], []⟩, ⟨6, [0, 1], [0, 1]⟩, ⟨6, [1, 2], []⟩, ⟨9, [0, 1, 2], [3, 2]⟩]]
+    let cx : Ctx := ⟨.d6fix, lex, Subset.all, [0, 0, 0, 1, 1, 1, 2, 2, 2, 3], [0, 3, 6, 9]⟩
+    let u : Node := ⟨0, 2, 0, 6, 3, ⟨6, [0, 1], [0, 1]⟩⟩
+    splitPath cx .B [⟨0, 3, 0, 9, 5, ⟨9, [0, 1, 2], [3, 2]⟩⟩] = .ok [u, ⟨2, 3, 6, 9, 2, ⟨3, [], []⟩⟩] ∧
+    numSplits u .B = 2 ∧
+    splitPath cx .B [u, ⟨2, 3, 6, 9, 2, ⟨3, [], []⟩⟩] ≠ .ok [u, ⟨2, 3, 6, 9, 2, ⟨3, [], []⟩⟩] ∧
+    splitInto cx .B u = .ok (true, [⟨0, 1, 0, 3, 0, ⟨3, [], []⟩⟩, ⟨1, 2, 3, 6, 1, ⟨3, [], []⟩⟩]) := by
+  decide
+
+/-- **The deprecated `Morpheme::split` / `MorphemeList::split`** is `split_path`'s loop body whenever the
+node does not declare exactly one unit (units for two or more, the node itself for none); for ONE declared
+unit it returns that unit while `split_path` keeps the parent (the case the property text leaves out). -/
+theorem deprecated_split_eq_expand (cx : Ctx) (m : Mode) (n : Node) (h1 : numSplits n m ≠ 1) :
+    splitDeprecated cx m n = expand cx m n := by
+  by_cases h0 : numSplits n m = 0
+  · simp [splitDeprecated, splitInto, expand, h0]
+  · have hgt : ¬ numSplits n m ≤ 1 := by omega
+    simp only [splitDeprecated, splitInto, h0, if_false, expand, hgt]
+    cases split cx n m <;> simp
+
+/-- non-vacuity of the `joined_*` theorems: `二十` (word 3, A and B units `二`/`十`) + `二` joined by
+`concat_nodes` — the HEAD declares units, the joined token (`WordId::INVALID`, key length 9) declares
+none, is unchanged in mode A and `split_into` reports nothing; the same run through `concat_oov_nodes`
+gets word number `MAX_WORD` of dictionary 0. -/
+example :
+    let lex : Lex := [[⟨3, [], []⟩, ⟨3, [], []⟩, ⟨3, [], []⟩, ⟨6, [0, 1], [0, 1]⟩]]
+    let cx : Ctx := ⟨.d6fix, lex, Subset.all, [0, 0, 0, 1, 1, 1, 2, 2, 2, 3], [0, 3, 6, 9]⟩
+    let head : Node := ⟨0, 2, 0, 6, 3, ⟨6, [0, 1], [0, 1]⟩⟩
+    let j : Node := ⟨0, 3, 0, 9, 4294967295, ⟨9, [], []⟩⟩
+    numSplits head .A = 2 ∧
+    joinNodes .num [head, ⟨2, 3, 6, 9, 0, ⟨3, [], []⟩⟩] = .ok j ∧
+    splitPath cx .A [j] = .ok [j] ∧ splitInto cx .A j = .ok (false, []) ∧
+    joinNodes .kata [head, ⟨2, 3, 6, 9, 0, ⟨3, [], []⟩⟩] = .ok ⟨0, 3, 0, 9, 268435455, ⟨9, [], []⟩⟩ ∧
+    Linked [head, ⟨2, 3, 6, 9, 0, ⟨3, [], []⟩⟩] 0 0 3 9 ∧
+    resolveGroups lex Subset.all [0, 3, 6, 9] [⟨none, [⟨some .num, [⟨0, 2, 3, false⟩, ⟨2, 3, 0, false⟩]⟩]⟩] = .ok [j] := by
+  refine ⟨by decide, by decide, by decide, by decide, by decide, ?_, by decide⟩
+  exact ⟨rfl, rfl, rfl, rfl, rfl, rfl⟩
 
 
 end C09
